@@ -175,6 +175,13 @@ func runC09(c *sim.Ctx) {
 	if err := os.Symlink(filepath.Join(imgDir, "db"), lnkPath); err != nil {
 		c.Troublef("symlink: %v", err)
 	}
+	// ... and through "<link to a directory>/../db": the kernel follows the link before it
+	// goes up, so this names the image too (a lexical clean-up of the path would not)
+	os.MkdirAll(filepath.Join(imgDir, "sub"), 0o755)
+	if err := os.Symlink(filepath.Join(imgDir, "sub"), filepath.Join(lnkDir, "cur")); err != nil {
+		c.Troublef("symlink: %v", err)
+	}
+	dotdotPath := lnkDir + "/cur/../db"
 	seen := map[[32]byte]bool{}
 	writePair := func(d string, f crash.Files) string {
 		p := filepath.Join(d, "db")
@@ -350,8 +357,12 @@ func runC09(c *sim.Ctx) {
 			d.Close()
 		}
 		if (k+cut)%5 == 0 {
-			if dl, err := sqlittleOpen(lnkPath); err == nil {
-				judge("handle opened through a symbolic link", func(op ops.Op) ops.Result { return ops.Run(dl, op, nil) })
+			lp, how := lnkPath, "handle opened through a symbolic link"
+			if (k+cut)%10 == 0 {
+				lp, how = dotdotPath, "handle opened through <directory link>/../db"
+			}
+			if dl, err := sqlittleOpen(lp); err == nil {
+				judge(how, func(op ops.Op) ops.Result { return ops.Run(dl, op, nil) })
 				dl.Close()
 				c.Probe("opened-through-symlink")
 			} else {
